@@ -264,6 +264,35 @@ class MemFieldWriter(base.FieldWriter):
         self.is_closed = True
 
 
+class MemFieldCursor(base.FieldCursor):
+    def __init__(self, btexts, fieldobj):
+        self._btexts = btexts
+        self._fieldobj = fieldobj
+        self._i = 0
+
+    def first(self):
+        self._i = 0
+        return self.text()
+
+    def find(self, term):
+        if not isinstance(term, bytes):
+            term = self._fieldobj.to_bytes(term)
+        self._i = bisect_left(self._btexts, term)
+        return self.text()
+
+    def next(self):
+        self._i += 1
+        return self.text()
+
+    def text(self):
+        if self._i < len(self._btexts):
+            return self._fieldobj.from_bytes(self._btexts[self._i])
+        return None
+
+    def is_valid(self):
+        return self._i < len(self._btexts)
+
+
 class MemTermsReader(base.TermsReader):
     def __init__(self, storage, segment):
         self._storage = storage
@@ -278,9 +307,14 @@ class MemTermsReader(base.TermsReader):
             for btext in self._invindex[fieldname]:
                 yield (fieldname, btext)
 
+    def cursor(self, fieldname, fieldobj):
+        return MemFieldCursor(sorted(self._invindex.get(fieldname, ())),
+                              fieldobj)
+
     def terms_from(self, fieldname, prefix):
         if fieldname not in self._invindex:
-            raise TermNotFound("Unknown field %r" % (fieldname,))
+            # No document in memory has a term in this field (yet)
+            return
         terms = sorted(self._invindex[fieldname])
         if not terms:
             return
